@@ -21,7 +21,7 @@ PatchOk(r) ==
             ELSE r.ret # 0 /\ (a.idx >= 0 => r.idx = a.idx)
 StepOfImpl(s, r) == [ok |-> PatchOk(r), st |-> s]
 TraceLog == ndJsonDeserialize(IOEnv.TRACE)
-T == INSTANCE TraceBase WITH Log <- TraceLog, InitSt <- 0, StepOf <- StepOfImpl
+T == INSTANCE TraceBase WITH Log <- TraceLog, InitSt <- 0, StepOf <- StepOfImpl, ResyncAtNew <- FALSE
 Spec == T!Spec
 Done == T!Done
 ====
